@@ -15,7 +15,9 @@ def run_one(name, patch, checks, tier):
     try:
         for d in ('src', 'include'):
             shutil.copytree(os.path.join('/repo', d), os.path.join(scratch, d))
-        for f in ('build.rs', 'Cargo.toml'):  # read by the C20 check
+        if os.path.isdir(os.path.join('/repo', 'cmake')):  # the CMake arm of build.rs (C20)
+            shutil.copytree(os.path.join('/repo', 'cmake'), os.path.join(scratch, 'cmake'))
+        for f in ('build.rs', 'Cargo.toml', 'CMakeLists.txt'):  # read by the C20 check
             if os.path.exists(os.path.join('/repo', f)):
                 shutil.copy2(os.path.join('/repo', f), os.path.join(scratch, f))
         r = subprocess.run(['patch', '-p1', '-s', '-d', scratch, '-i', os.path.abspath(patch)], capture_output=True, text=True)
